@@ -24,8 +24,12 @@ static void jstr(FILE *f, const char *s)
   }
   fputc('"', f);
 }
+#include <signal.h>
 int main(int argc, char **argv)
 {
+  /* vchild exit <n> / vchild raise <sig>: end in a chosen way (C01 sweep on the real kernel) */
+  if (argc >= 3 && !strcmp(argv[1], "exit")) _exit(atoi(argv[2]));
+  if (argc >= 3 && !strcmp(argv[1], "raise")) { raise(atoi(argv[2])); pause(); _exit(99); }
   struct { int fd; struct stat st; int fl; } fds[256]; int n = 0;
   /* no opendir here (it would add a descriptor): probe the numbers */
   for (int fd = 0; fd < 1100 && n < 256; fd++) {
